@@ -19,6 +19,10 @@ func (core *JApiCore) processInclude(keyword *scanner.Lexeme) *jerr.JApiError {
 	// This directive shouldn't be among core.directives, because we simply
 	// "paste" included file content inside current file.
 
+	if je := core.checkDirectiveIsNotBanned(directive.Include, keyword.Begin()); je != nil {
+		return je
+	}
+
 	// The INCLUDE keyword finishes the previous directive like any other keyword.
 	if je := core.processCurrentDirective(); je != nil {
 		return je
